@@ -29,11 +29,14 @@ def check(chk, repo):
     uses = 0
     for cls, m in SITES:
         w = model_walk(repo, cls, m)
-        n_sites += len(weight_terms(w))
+        n_here = len(weight_terms(w))
+        n_sites += n_here
+        # (Prim + competition in the fits; predict has one site per spelling of the scan's first offer)
+        chk.floor(f"arc-weight sites in {cls}.{m}", n_here, 1 if m == "predict" else 2)
         st = check_order_only(rep, w, "")
         uses += st["uses"]
         run_kinds(rep, w, rules=("K1", "K2", "K3", "K4"))
-    chk.floor("arc-weight sites in supervised / semi-supervised fit and predict", n_sites, 6)
+    chk.floor("arc-weight sites in supervised / semi-supervised fit and predict", n_sites, 5)
     chk.floor("uses of weight-derived values checked", uses, 30)
     M = Metrics(repo)
     n = check_monotone_family(rep, M)
